@@ -33,7 +33,7 @@ def dy(rng, bits=6, lo=-4, hi=4):
 def correspondence(ctx):
     rng = ctx.rng
     cases = []
-    n = ctx.n(120, 1500)
+    n = ctx.n(120, 4500)
     dist = {}
     for i in range(n):
         D = rng.choice([2, 3])
@@ -93,18 +93,12 @@ def correspondence(ctx):
                 term = f"mclose tol (gen_euler (K:=QcF) ({AX[o[0]]}, {AX[o[1]]}, {AX[o[2]]}) {cs}) {qc_mat(r['val'])}"
         else:
             term = f"mclose tol (gen_quat_matrix (K:=QcF) {qc(r['norm'])} {' '.join(qc(v) for v in c['q'])}) {qc_mat(r['val'])}"
-        lines.append(f"Definition c{i} : bool := {term}.")
-        names.append((i, f"c{i}"))
-    lines.append("Definition results : list bool := " + coq_list([nm for _, nm in names]) + ".")
-    lines.append('Eval vm_compute in ("FAIL"%string, failing results).')
-    rc, out = vlib.coqc_text("\n".join(lines) + "\n", ctx.scratch, "cases_c08")
-    bad = vlib.parse_nat_list(out, "FAIL")
-    if rc != 0 or bad is None:
-        failures.append({"why": "case file did not evaluate (generated definitions missing or ill-typed)", "coq": out[-600:]})
-    else:
-        for j in bad:
-            i = names[j][0]
-            failures.append({"case": cases[i], "impl": res[i], "why": "model value differs from implementation"})
+        names.append((i, term))
+    bad, errs = vlib.run_cases(ctx.scratch, lines, names, name="cases_c08")
+    for e in errs:
+        failures.append({"why": "case file did not evaluate (generated definitions missing or ill-typed)", "coq": e[-600:]})
+    for i in bad:
+        failures.append({"case": cases[i], "impl": res[i], "why": "model value differs from implementation"})
     samples = [{"case": cases[i], "impl": res[i]} for i in range(min(3, len(cases)))]
     return {"evaluations": len(cases), "distinct_nontrivial": len({str(c) for c in cases}),
             "rule": "seeded random operands (dyadic rationals, all 9 form pairs, D in {2,3}), Euler orders (27 + 2-D) with angles in (-pi,pi], "
@@ -114,7 +108,7 @@ def correspondence(ctx):
 
 
 def search(ctx, broken, corr_failures):
-    n = ctx.n(150, 2500)
+    n = ctx.n(150, 8000)
     r = vlib.run_impl("c08_impl", {"fn": "oracle", "seed": ctx.seed, "n": n})
     ctx.notes.append(f"implementation-side property evaluation: {r['counts']}")
     out = []
